@@ -6,6 +6,7 @@ import (
 	"encoding/json"
 	"fmt"
 	"strings"
+	"sync"
 	"sync/atomic"
 	"time"
 
@@ -41,8 +42,10 @@ func ws(r *vlib.Rand) string {
 	return []string{"", "", " ", "\n", "\t ", "  "}[r.Intn(6)]
 }
 
-// handEnvelope writes an envelope by hand: all four fields, random key order and whitespace.
-func handEnvelope(r *vlib.Rand, dest string, m *message.Message) []byte {
+// handEnvelope writes an envelope by hand: random member order and whitespace. Members named in omit are left
+// out; nullUUID writes "uuid":null; a nil payload is written as null (as forwarder.Publisher does), empty metadata
+// as {} or null.
+func handEnvelope(r *vlib.Rand, dest string, m *message.Message, omit map[string]bool, nullUUID bool) []byte {
 	meta := "{"
 	i := 0
 	for k, v := range m.Metadata {
@@ -53,15 +56,26 @@ func handEnvelope(r *vlib.Rand, dest string, m *message.Message) []byte {
 		i++
 	}
 	meta += ws(r) + "}"
+	if len(m.Metadata) == 0 && r.Bool() {
+		meta = "null" // what forwarder.Publisher writes for a message with a nil Metadata map
+	}
 	pay := "null"
 	if m.Payload != nil {
 		pay = jstr(base64.StdEncoding.EncodeToString(m.Payload))
 	}
-	fields := []string{
-		jstr("destination_topic") + ws(r) + ":" + ws(r) + jstr(dest),
-		jstr("uuid") + ws(r) + ":" + ws(r) + jstr(m.UUID),
-		jstr("payload") + ws(r) + ":" + ws(r) + pay,
-		jstr("metadata") + ws(r) + ":" + ws(r) + meta,
+	uuid := jstr(m.UUID)
+	if nullUUID {
+		uuid = "null"
+	}
+	fields := []string{jstr("destination_topic") + ws(r) + ":" + ws(r) + jstr(dest)}
+	if !omit["uuid"] {
+		fields = append(fields, jstr("uuid")+ws(r)+":"+ws(r)+uuid)
+	}
+	if !omit["payload"] {
+		fields = append(fields, jstr("payload")+ws(r)+":"+ws(r)+pay)
+	}
+	if !omit["metadata"] {
+		fields = append(fields, jstr("metadata")+ws(r)+":"+ws(r)+meta)
 	}
 	out := ws(r) + "{"
 	for n, p := range r.Perm(len(fields)) {
@@ -71,6 +85,55 @@ func handEnvelope(r *vlib.Rand, dest string, m *message.Message) []byte {
 		out += ws(r) + fields[p]
 	}
 	return []byte(out + ws(r) + "}" + ws(r))
+}
+
+// genHandmade draws one hand-written envelope message for destination topic dest.
+//
+//	"handmade"          all four members (the UUID may be "", the payload null, the metadata {} or null: all of
+//	                    which forwarder.Publisher writes itself for such messages): a valid envelope.
+//	"handmade-partial"  one or more of uuid/payload/metadata left out, or "uuid":null: see relayMsg.Optional.
+func genHandmade(e *vlib.Env, o *odd, no int, eff, dest string) *relayMsg {
+	r := e.R
+	inner := genMsg(e, no, false)
+	o.uuid(r, inner)
+	if r.Chance(0.2) {
+		inner.Metadata = message.Metadata{}
+	}
+	rm := &relayMsg{Kind: "handmade", SrcTopic: eff, Valid: true, WantTopic: dest}
+	omit := map[string]bool{}
+	nullUUID := false
+	if r.Chance(0.4) {
+		rm.Kind, rm.Optional = "handmade-partial", true
+		for len(omit) == 0 && !nullUUID {
+			if r.Chance(0.5) {
+				if r.Chance(0.3) {
+					nullUUID = true
+				} else {
+					omit["uuid"] = true
+				}
+			}
+			if r.Chance(0.25) {
+				omit["payload"] = true
+			}
+			if r.Chance(0.25) {
+				omit["metadata"] = true
+			}
+		}
+	}
+	body := handEnvelope(r, dest, inner, omit, nullUUID)
+	if omit["uuid"] || nullUUID {
+		inner.UUID = ""
+	}
+	if omit["payload"] {
+		inner.Payload = nil
+	}
+	if omit["metadata"] {
+		inner.Metadata = message.Metadata{}
+	}
+	rm.Want = vlib.Snap(inner)
+	rm.Orig = message.NewMessage(fmt.Sprintf("%s-env%d", e.ID(), no), body)
+	rm.Plan, rm.MaxRedeliver = genPlan(r)
+	return rm
 }
 
 var malformedKinds = []string{"random-bytes", "empty", "truncated", "non-object", "no-destination", "empty-destination", "null-destination", "ill-typed", "bad-base64", "trailing-garbage", "two-envelopes"}
@@ -144,13 +207,24 @@ func malformedEnvelope(e *vlib.Env, no int) ([]byte, string) {
 	return b, kind
 }
 
-func runForwarder(e *vlib.Env) vlib.Result {
+func runForwarder(e *vlib.Env) vlib.Result { return runForwarderOpt(e, false) }
+
+// fwdBatch is one forwarder.Publisher.Publish call of stage 1.
+type fwdBatch struct {
+	topic string
+	orig  []*message.Message
+}
+
+func runForwarderOpt(e *vlib.Env, conc bool) vlib.Result {
 	r := e.R
 	res := vlib.Result{}
 	ackCU := r.Bool()
 	res.Class = "forwarder/nack-cannot-unwrap"
 	if ackCU {
 		res.Class = "forwarder/ack-cannot-unwrap"
+	}
+	if conc {
+		res.Class = "concurrent/" + res.Class
 	}
 	ctl := vlib.NewCtl(r.Uint64(), 0.15, 30)
 	defer ctl.Uninstall()
@@ -164,54 +238,82 @@ func runForwarder(e *vlib.Env) vlib.Result {
 		eff = defaultForwarderTopic
 	}
 	destTopics := genTopics(e, "dst", r.Range(1, 4), false)
+	o := &odd{}
 
 	// stage 1: publish through forwarder.Publisher into an outbox, collect the envelopes
-	outbox := &vlib.Pub{Name: e.ID() + ".outbox"}
-	fp := forwarder.NewPublisher(outbox, forwarder.PublisherConfig{ForwarderTopic: fwdTopic})
-	var msgs []*relayMsg
+	var batches []fwdBatch
 	no := 0
 	nValid := r.Range(2, 8)
 	for produced := 0; produced < nValid; {
-		batch := r.Range(1, 3)
-		if batch > nValid-produced {
-			batch = nValid - produced
+		n := r.Range(1, 3)
+		if n > nValid-produced {
+			n = nValid - produced
 		}
-		topic := destTopics[r.Intn(len(destTopics))]
-		var orig []*message.Message
-		for i := 0; i < batch; i++ {
+		b := fwdBatch{topic: destTopics[r.Intn(len(destTopics))]}
+		for i := 0; i < n; i++ {
 			m := genMsg(e, no, false)
+			o.uuid(r, m)
 			if r.Chance(0.06) {
 				m = &message.Message{UUID: m.UUID, Payload: m.Payload} // built without the constructor: nil metadata
+				o.nilM++
 			}
-			orig = append(orig, m)
+			b.orig = append(b.orig, m)
 			no++
 		}
-		before := len(outbox.Calls())
-		err := fp.Publish(topic, orig...)
-		calls := outbox.Calls()[before:]
-		if err != nil || len(calls) != 1 || calls[0].Topic != eff || len(calls[0].Msgs) != len(orig) {
-			got := "no call"
-			if len(calls) > 0 {
-				got = fmt.Sprintf("%d call(s), first on topic %q with %d messages", len(calls), calls[0].Topic, len(calls[0].Msgs))
+		batches = append(batches, b)
+		produced += n
+	}
+	// several goroutines publishing through ONE forwarder.Publisher at the same time (a Publisher is shared by
+	// request handlers), the outbox reading its arguments late; every goroutine has its own destination topic,
+	// which is how an outbox call is paired with the batch it came from
+	nPublishers := 1
+	if conc && len(destTopics) >= 2 && len(batches) >= 2 && r.Chance(0.6) {
+		nPublishers = len(destTopics)
+		if nPublishers > 3 {
+			nPublishers = 3
+		}
+		for i := range batches {
+			batches[i].topic = destTopics[i%nPublishers]
+		}
+	}
+	var msgs []*relayMsg
+	if nPublishers == 1 {
+		outbox := &vlib.Pub{Name: e.ID() + ".outbox"}
+		fp := forwarder.NewPublisher(outbox, forwarder.PublisherConfig{ForwarderTopic: fwdTopic})
+		for _, b := range batches {
+			before := len(outbox.Calls())
+			err := fp.Publish(b.topic, b.orig...)
+			calls := outbox.Calls()[before:]
+			if err != nil || len(calls) != 1 || calls[0].Topic != eff || len(calls[0].Msgs) != len(b.orig) {
+				got := "no call"
+				if len(calls) > 0 {
+					got = fmt.Sprintf("%d call(s), first on topic %q with %d messages", len(calls), calls[0].Topic, len(calls[0].Msgs))
+				}
+				res.Fail("publisher-envelope", "forwarder.Publisher(ForwarderTopic=%q).Publish(%q, %d msgs) returned %v and made %s; want one Publish of %d envelopes on %q", fwdTopic, b.topic, len(b.orig), err, got, len(b.orig), eff)
+				return res
 			}
-			res.Fail("publisher-envelope", "forwarder.Publisher(ForwarderTopic=%q).Publish(%q, %d msgs) returned %v and made %s; want one Publish of %d envelopes on %q", fwdTopic, topic, len(orig), err, got, len(orig), eff)
+			for i, env := range calls[0].Msgs {
+				rm := &relayMsg{Kind: "envelope", SrcTopic: eff, Orig: env, Valid: true, WantTopic: b.topic, Want: vlib.Snap(b.orig[i])}
+				rm.Plan, rm.MaxRedeliver = genPlan(r)
+				msgs = append(msgs, rm)
+			}
+		}
+	} else {
+		var ok bool
+		if msgs, ok = publishConcurrently(e, &res, fwdTopic, eff, destTopics[:nPublishers], batches); !ok {
 			return res
 		}
-		for i, env := range calls[0].Msgs {
-			rm := &relayMsg{Kind: "envelope", SrcTopic: eff, Orig: env, Valid: true, WantTopic: topic, Want: vlib.Snap(orig[i])}
+		for _, rm := range msgs {
 			rm.Plan, rm.MaxRedeliver = genPlan(r)
-			msgs = append(msgs, rm)
 		}
-		produced += batch
 	}
-	for i, n := 0, r.Intn(2); i < n; i++ {
-		inner := genMsg(e, no, false)
+	nHand := r.Intn(2)
+	if r.Chance(0.15) {
+		nHand += 2
+	}
+	for i := 0; i < nHand; i++ {
+		msgs = append(msgs, genHandmade(e, o, no, eff, destTopics[r.Intn(len(destTopics))]))
 		no++
-		topic := destTopics[r.Intn(len(destTopics))]
-		env := message.NewMessage(fmt.Sprintf("%s-env%d", e.ID(), no), handEnvelope(r, topic, inner))
-		rm := &relayMsg{Kind: "handmade", SrcTopic: eff, Orig: env, Valid: true, WantTopic: topic, Want: vlib.Snap(inner)}
-		rm.Plan, rm.MaxRedeliver = genPlan(r)
-		msgs = append(msgs, rm)
 	}
 	for i, n := 0, r.Intn(4); i < n; i++ {
 		b, kind := malformedEnvelope(e, no)
@@ -231,9 +333,15 @@ func runForwarder(e *vlib.Env) vlib.Result {
 	msgs = shuffled
 
 	// stage 2: the Forwarder between the scripted ends
-	mon := newMonitor(true)
+	mon := newMonitor(!conc)
 	src := &vlib.Sub{Name: e.ID() + ".src"}
-	dst := &vlib.Pub{Name: e.ID() + ".dst", OnPublish: mon.onPublish, Script: mon.script}
+	rec := &vlib.Pub{Name: e.ID() + ".dst", OnPublish: mon.onPublish, Script: mon.script}
+	var dst message.Publisher = rec
+	var co *concOpts
+	if conc {
+		co = newConc(r, r.Range(2, 4), "publisher")
+		dst = &gatedPub{inner: rec, g: co.gate}
+	}
 	var mwCalls atomic.Int64
 	nMw := r.Intn(3)
 	var mws []message.HandlerMiddleware
@@ -263,23 +371,111 @@ func runForwarder(e *vlib.Env) vlib.Result {
 	}
 	comp := component{name: "Forwarder", run: func() error { return fwd.Run(context.Background()) }, running: func() bool { return vlib.IsClosed(fwd.Running()) }, stop: func() { fwd.Close() }}
 	byTopic := map[string][]*relayMsg{eff: msgs}
-	drive(&res, comp, src, mon, []string{eff}, byTopic)
+	drive(&res, comp, src, mon, []string{eff}, byTopic, co)
 	st := mon.judge(&res, msgs, judgeCfg{component: "Forwarder", ackCannotUnwrap: ackCU})
-	fill(&res, st, mon, msgs, false)
+	fill(&res, st, mon, msgs, o.any() || st.optionalForwarded+st.optionalRefused > 0)
+	o.count(&res)
 	if nMw > 0 {
 		res.Count("middleware_calls", int(mwCalls.Load()))
+	}
+	if nPublishers > 1 {
+		res.Count("concurrent_forwarder_publisher_goroutines", nPublishers)
 	}
 	kinds := map[string]int{}
 	for _, rm := range msgs {
 		kinds[strings.SplitN(rm.Kind, "/", 2)[0]]++
 	}
 	res.Sig = vlib.Sig("fwd", ackCU, fwdTopic == "", nMw, ownRouter, closeTimeout, len(destTopics), shapeSig(msgs))
+	if conc {
+		co.count(&res)
+		res.NonTrivial = st.relayed > 0 && co.multiRelease > 0
+		res.Sig = vlib.Sig(res.Sig, co.sig(), nPublishers)
+	}
 	res.Hooks = ctl.Counts()
 	sample := map[string]any{"component": "Forwarder", "config": map[string]any{"ForwarderTopic": fwdTopic, "AckWhenCannotUnwrap": ackCU, "middlewares": nMw, "external_router": ownRouter, "CloseTimeout": closeTimeout.String()},
 		"dest_topics": destTopics, "messages": msgTrace(msgs, 8)}
+	if conc {
+		sample["in_flight_window"] = co.window
+		sample["publisher_goroutines"] = nPublishers
+	}
 	res.Sample = sample
 	if res.Failed() && res.Witness == nil {
 		res.Witness = map[string]any{"messages": msgTrace(msgs, 100)}
 	}
 	return res
+}
+
+// publishConcurrently runs stage 1 with one goroutine per destination topic, all on the same forwarder.Publisher,
+// whose outbox is gated (it reads its arguments late). ok=false: verdict set.
+func publishConcurrently(e *vlib.Env, res *vlib.Result, fwdTopic, eff string, topics []string, batches []fwdBatch) ([]*relayMsg, bool) {
+	co := newConc(e.R, len(topics), "publisher")
+	defer co.gate.openForever()
+	outbox := &vlib.Pub{Name: e.ID() + ".outbox"}
+	fp := forwarder.NewPublisher(&gatedPub{inner: outbox, g: co.gate}, forwarder.PublisherConfig{ForwarderTopic: fwdTopic})
+	perTopic := map[string][]fwdBatch{}
+	for _, b := range batches {
+		perTopic[b.topic] = append(perTopic[b.topic], b)
+	}
+	errs := make([]error, len(topics))
+	var wg sync.WaitGroup
+	for g, t := range topics {
+		if len(perTopic[t]) == 0 {
+			continue
+		}
+		wg.Add(1)
+		co.active.Add(1)
+		go func(g int, list []fwdBatch) {
+			defer wg.Done()
+			defer co.active.Add(-1)
+			for _, b := range list {
+				if err := fp.Publish(b.topic, b.orig...); err != nil && errs[g] == nil {
+					errs[g] = err
+				}
+			}
+		}(g, perTopic[t])
+	}
+	wd := vlib.WD
+	wd.IgnoreFrames = []string{gateFrame}
+	if oc, dump := co.rounds(started(wg.Wait), wd); oc != vlib.Done {
+		res.Inconclusive("forwarder.Publisher.Publish did not return (%v)", oc)
+		res.Witness = dump
+		return nil, false
+	}
+	for g, err := range errs {
+		if err != nil {
+			res.Fail("publisher-envelope", "forwarder.Publisher.Publish(%q, ...) failed although the wrapped publisher accepts everything: %v", topics[g], err)
+			return nil, false
+		}
+	}
+	// pair every outbox call with its batch: the envelope names the destination topic, the calls of one topic are in batch order
+	seen := map[string]int{}
+	var msgs []*relayMsg
+	for _, c := range outbox.Calls() {
+		var env refEnvelope
+		if len(c.Msgs) == 0 || c.Topic != eff || json.Unmarshal(c.Msgs[0].Payload, &env) != nil || len(perTopic[env.DestinationTopic]) <= seen[env.DestinationTopic] {
+			first := ""
+			if len(c.Msgs) > 0 {
+				first = clip(c.Msgs[0].Payload)
+			}
+			res.Fail("publisher-envelope", "forwarder.Publisher (used by %d goroutines) published call #%d on topic %q with %d messages, first payload %q: not an envelope for a destination topic that still had a batch outstanding (forwarder topic %q)", len(topics), c.No, c.Topic, len(c.Msgs), first, eff)
+			return nil, false
+		}
+		b := perTopic[env.DestinationTopic][seen[env.DestinationTopic]]
+		seen[env.DestinationTopic]++
+		if len(c.Msgs) != len(b.orig) {
+			res.Fail("publisher-envelope", "forwarder.Publisher.Publish(%q, %d msgs) published %d envelopes", b.topic, len(b.orig), len(c.Msgs))
+			return nil, false
+		}
+		for i, m := range c.Msgs {
+			msgs = append(msgs, &relayMsg{Kind: "envelope", SrcTopic: eff, Orig: m, Valid: true, WantTopic: b.topic, Want: vlib.Snap(b.orig[i])})
+		}
+	}
+	for t, l := range perTopic {
+		if seen[t] != len(l) {
+			res.Fail("publisher-envelope", "forwarder.Publisher: %d Publish calls for destination %q returned nil, but only %d reached the wrapped publisher", len(l), t, seen[t])
+			return nil, false
+		}
+	}
+	res.Count("outbox_gate_rounds_with_2plus_calls_waiting", co.multiRelease)
+	return msgs, true
 }
